@@ -152,10 +152,14 @@ func TestVerifC25(t *testing.T) {
 	c.Rule("cases = (argv, uid). argv families: exhaustive-by-construction enumerations over the registered commands discovered at run time " +
 		"(bare invocation; every option in every spelling short/long/--opt=value/-ovalue/-o=value before and after the positionals; -h and --help " +
 		"inserted at and replacing every position of a rich invocation; `--` at every position, alone and followed by a help flag; -h/--help/--/option-looking " +
-		"strings as the value of every value-taking option in every spelling; h inside clusters of shorts; every registered name after an unknown name, an empty " +
+		"strings as the value of every value-taking option in every spelling; h inside clusters of shorts; for every command and every value-taking option found on " +
+		"the command structs (custom value types and optional values included) option-looking tokens (-h, --help, -x, --help=1, own option spellings...) as the SEPARATE " +
+		"value (`--opt -h`, `-o --help`, `-bo -h`) together with the complete required positionals (and one more), before/between/after them, bare and with all other " +
+		"options at valid values, also followed by `--`; the same for two options at once, chains and all value-taking options at once; every registered name after an unknown name, an empty " +
 		"string, `--`, an unknown option; pairs of names allowed/denied in both orders with `--` and help variants; near-miss names and near-miss help flags) plus " +
 		"seeded random vectors: well-formed invocations (random options, clustered shorts, positionals incl. empty strings, `--` followed by option-looking free " +
-		"arguments), 1-3 random mutations of those (insert/replace/delete/swap with hostile tokens) and token soups. Each argv runs as uid 0 and as 1-2 non-root uids. " +
+		"arguments), 1-3 random mutations of those (insert/replace/delete/swap with hostile tokens, option-looking token in place of a separate option value), well-formed " +
+		"invocations with option-looking separate values replaced/inserted before any `--`, and token soups. Each argv runs as uid 0 and as 1-2 non-root uids. " +
 		"Non-trivial = the vector names at least one registered command; distinct = distinct (uid class, family, token-class sequence)")
 	c.Assume("'executed' = the real go-flags parser, configured by the real Run after the real gate, selects a command and is about to call its Execute; hook H1 " +
 		"hands that command to the recorder instead (no command body runs, so reboot / fde-setup-result / mount have no effect)")
@@ -173,7 +177,7 @@ func TestVerifC25(t *testing.T) {
 		return
 	}
 	var surface []string
-	nOpts, nUnmodelled := 0, 0
+	nOpts, nUnmodelled, nCustom := 0, 0, 0
 	for _, l := range sf.Leaves {
 		var os_ []string
 		for _, o := range l.Opts {
@@ -189,6 +193,13 @@ func TestVerifC25(t *testing.T) {
 			}
 			if o.TakesValue {
 				s += "=<" + o.Kind + ">"
+			}
+			if o.Custom != "" {
+				s += "{custom:" + o.Custom + "}"
+				nCustom++
+			}
+			if !o.modelled {
+				s += "{unmodelled}"
 			}
 			os_ = append(os_, s)
 			nOpts++
@@ -208,6 +219,7 @@ func TestVerifC25(t *testing.T) {
 	c.Max("max_commands_registered", len(sf.Names))
 	c.Max("max_executable_commands_incl_subcommands", len(sf.Leaves))
 	c.Max("max_options_discovered", nOpts)
+	c.Max("max_options_with_custom_value_type", nCustom)
 	c.Max("max_commands_unmodelled_by_wellformed_generator", nUnmodelled)
 	for a := range c25Allowed {
 		if _, ok := commands[a]; !ok {
